@@ -28,7 +28,7 @@ def clamp(off):
 
 
 def gen_definition(rng):
-    kind = rng.choice(("rule-pair", "rule-pair", "rule-until", "rule-count", "rdates", "singles", "single"))
+    kind = rng.choice(("rule-pair", "rule-pair", "rule-until", "rule-count", "rdates", "singles", "single", "independent"))
     std = rng.choice(range(-12 * 60, 14 * 60 + 1, 15)) * 60
     delta = rng.choice((1800, 3600, 3600, 7200))
     dst = clamp(std + delta)
@@ -74,6 +74,17 @@ def gen_definition(rng):
             obs.append((k, (y, rng.randrange(1, 13), rng.randrange(1, 29), rng.randrange(0, 24), rng.choice((0, 30)), 0), cur, new,
                         (names[1] if k == "DAYLIGHT" else names[0]), (), None))
             cur = new
+    elif kind == "independent":
+        # TZOFFSETFROM of an observance need not equal the TZOFFSETTO of the one before it: the onset is still local - own TZOFFSETFROM
+        y = rng.randrange(1970, 1995)
+        base = rng.choice(range(-8 * 60, 10 * 60 + 1, 30)) * 60
+        for i in range(rng.randrange(2, 5)):
+            y += rng.randrange(1, 8)
+            # independent, but within a few hours of each other: a jump of 24 h or more is the date-line case no tzinfo can carry (see C13 apia-dateline)
+            frm = clamp(base + rng.choice(range(-180, 181, 30)) * 60)
+            to = clamp(frm + rng.choice((-3600, 1800, 3600, 7200)))
+            k = rng.choice(("STANDARD", "DAYLIGHT"))
+            obs.append((k, (y, rng.randrange(1, 13), rng.randrange(1, 29), rng.randrange(0, 24), 0, 0), frm, to, (names[1] if k == "DAYLIGHT" else names[0]), (), None))
     else:
         obs.append(("STANDARD", (rng.randrange(1970, 2000), 1, 1, 0, 0, 0), std, std, names[0], (), None))
     rng.shuffle(obs)
